@@ -765,19 +765,20 @@ structure Post (st : St) (ls : LSt) (st' : St) (ls' : LSt) (is : List Item) (lis
   fids : fidsOf ls'.env = fidsOf ls.env
   ext : Ext (freesOf st.tab) (freesOf st'.tab)
   rel : Rel (fidsOf ls'.env) (freesOf st'.tab) is lis
+  tail : ls'.env.tail = ls.env.tail
 
 theorem Post.refl {st ls} (h : R st ls) : Post st ls st ls [] [] :=
-  ⟨h, rfl, rfl, Ext.refl _, .nil⟩
+  ⟨h, rfl, rfl, Ext.refl _, .nil, rfl⟩
 
 /-- the constant counter does not matter -/
 theorem Post.rebase {st0 st ls st' ls' is lis} (ht : st0.tab = st.tab) (hs : st0.scopes = st.scopes)
     (h : Post st0 ls st' ls' is lis) : Post st ls st' ls' is lis :=
-  ⟨h.r, by rw [h.scopes, hs], h.fids, by rw [← ht]; exact h.ext, h.rel⟩
+  ⟨h.r, by rw [h.scopes, hs], h.fids, by rw [← ht]; exact h.ext, h.rel, h.tail⟩
 
 theorem Post.seq {st ls st1 ls1 st2 ls2 i1 l1 i2 l2} (h1 : Post st ls st1 ls1 i1 l1) (h2 : Post st1 ls1 st2 ls2 i2 l2) :
     Post st ls st2 ls2 (i1 ++ i2) (l1 ++ l2) :=
   ⟨h2.r, h2.scopes.trans h1.scopes, h2.fids.trans h1.fids, h1.ext.trans h2.ext,
-    (by have := h1.rel.mono h2.ext; rw [← h2.fids] at this; exact this.append h2.rel)⟩
+    (by have := h1.rel.mono h2.ext; rw [← h2.fids] at this; exact this.append h2.rel), h2.tail.trans h1.tail⟩
 
 /-- errors about which the statement is silent: assigning to a name that is not a variable
 (a builtin, a function's own name), a filter reaching for the variables of a function around it -/
@@ -888,7 +889,7 @@ theorem ident_ok {st ls} (hR : R st ls) (hM : ∀ sc ∈ st.scopes.tail, sc.dept
     obtain ⟨_, b, hden, hlk, _⟩ := hres
     simp only [hlk]
     have hpost : ∀ a, Post st ls { st with tab := tab' } ls [.use a sym] [.use a b] :=
-      fun a => ⟨⟨hc', hR.hasEnd, hne⟩, rfl, rfl, hext, .use hden .nil⟩
+      fun a => ⟨⟨hc', hR.hasEnd, hne⟩, rfl, rfl, hext, .use hden .nil, rfl⟩
     cases acc with
     | get => exact hpost .get
     | set =>
@@ -935,12 +936,14 @@ theorem block_ok {fuel} (ih : Good fuel) (st : St) (ls : LSt) (b : Block) (hR : 
     cases hc2 with
     | @cons l2 rest2 _ _ fr2 frs2 hl2 hrest2 =>
     have hleave := leave_sim (.cons hl2 hrest2) sc.depth rfl
-    refine ⟨⟨?_, h2.r.hasEnd, by simp [St.updScope, leaveBlock, updCur]⟩, rfl, h2.fids, ?_, ?_⟩
+    refine ⟨⟨?_, h2.r.hasEnd, by simp [St.updScope, leaveBlock, updCur]⟩, rfl, h2.fids, ?_, ?_, ?_⟩
     · simpa [St.updScope, St.depth, popScope, LSt.upd, updFrame] using hleave
     · have := h2.ext
       simpa [St.updScope, St.depth, freesOf_leaveBlock] using this
     · have := h2.rel
       simpa [St.updScope, St.depth, freesOf_leaveBlock, popScope, LSt.upd, updFrame, fidsOf] using this
+    · have := h2.tail
+      simpa [popScope, pushScope, LSt.upd, updFrame] using this
 
 
 /-- the parameters: definitions at depth 0 of the new table against definition sites of the new frame -/
@@ -968,6 +971,14 @@ theorem defineParams_sim : ∀ (ps : List String) (st : St) (env : List Frame),
       · exact h3.trans hfr1
       · exact h4.trans hfid1
 
+theorem defineParams_tail : ∀ (ps : List String) (fr : Frame) (frs : List Frame),
+    (Lex.defineParams (fr :: frs) ps).tail = frs
+  | [], _, _ => rfl
+  | p :: ps, fr, frs => by
+    show (Lex.defineParams (Lex.define (fr :: frs) p).1 ps).tail = frs
+    rw [lexDefine_cons]
+    exact defineParams_tail ps _ frs
+
 theorem mem_getElem? {α} {l : List α} {x : α} (h : x ∈ l) : ∃ i : Nat, l[i]? = some x := by
   obtain ⟨i, hi, he⟩ := List.mem_iff_getElem.mp h
   exact ⟨i, by rw [List.getElem?_eq_getElem hi, he]⟩
@@ -975,7 +986,8 @@ theorem mem_getElem? {α} {l : List α} {x : α} (h : x ∈ l) : ∃ i : Nat, l[
 /-- the end of a function literal: `leave_scope`, the captured symbols, `Closure` -/
 theorem fn_finish {st : St} {ls : LSt} {st3 : St} {ls1 : LSt} {st4 : St} {ls2 : LSt} {items litems} {fid : Nat}
     (hR : R st ls) (hsc : st3.scopes = {} :: st.scopes) (hfree0 : freesOf st3.tab = [] :: freesOf st.tab)
-    (hfids : fidsOf ls1.env = fid :: fidsOf ls.env) (h : Post st3 ls1 st4 ls2 items litems) :
+    (hfids : fidsOf ls1.env = fid :: fidsOf ls.env) (htl : ls1.env.tail = ls.env)
+    (h : Post st3 ls1 st4 ls2 items litems) :
     Post st ls st4.leave.addConst { ls2 with env := ls2.env.tail }
       [.closure st4.leave.nconsts (Table.free st4.tab) items] [.mkfn fid litems] := by
   obtain ⟨tab4, scopes4, nconsts4, hasEnd4⟩ := st4
@@ -998,7 +1010,8 @@ theorem fn_finish {st : St} {ls : LSt} {st3 : St} {ls1 : LSt} {st4 : St} {ls2 : 
     rw [h0] at h1
     have : st.tab.length = 0 := by rw [h3.2, ← h3.1, h2, ← h1]; rfl
     exact hR.ne (List.eq_nil_of_length_eq_zero this)
-  refine ⟨⟨hrest4, h.r.hasEnd, hne⟩, rfl, hf.2, hext.2, ?_⟩
+  have htail : frs4 = ls.env := by have := h.tail; rw [htl] at this; exact this
+  refine ⟨⟨hrest4, h.r.hasEnd, hne⟩, rfl, hf.2, hext.2, ?_, by show frs4.tail = ls.env.tail; rw [htail]⟩
   refine .closure ?_ ?_ .nil
   · have := h.rel
     simp only [fidsOf, freesOf, List.map_cons] at this
@@ -1030,7 +1043,7 @@ theorem fn_ok {fuel} (ih : Good fuel) (st : St) (ls : LSt) (name : String) (para
     obtain ⟨h1, h2, h3, h4, h5, h6⟩ := hp
     refine Corr.bind (ih.block _ _ body ⟨h1, h5.trans hR.hasEnd, h6⟩ ⟨hB.weaken.1, by rw [h2]; exact hB0⟩)
       fun st4 items ls2 litems h => ?_
-    exact fn_finish hR h2 h3 h4 h
+    exact fn_finish hR h2 h3 h4 (defineParams_tail _ _ _) h
   · simp only [hn, Bool.false_eq_true, if_false]
     have hc0 := fnname_sim hR.chain ls.nextFid name
     have hp := defineParams_sim params { st.enter false with tab := defineFunctionName (st.enter false).tab name } _ hc0
@@ -1039,7 +1052,7 @@ theorem fn_ok {fuel} (ih : Good fuel) (st : St) (ls : LSt) (name : String) (para
     obtain ⟨h1, h2, h3, h4, h5, h6⟩ := hp
     refine Corr.bind (ih.block _ _ body ⟨h1, h5.trans hR.hasEnd, h6⟩ ⟨hB.weaken.1, by rw [h2]; exact hB0⟩)
       fun st4 items ls2 litems h => ?_
-    exact fn_finish hR h2 h3 h4 h
+    exact fn_finish hR h2 h3 h4 (defineParams_tail _ _ _) h
 
 
 theorem loops_sim {l rest sc scs fr frs} (hc : Chain (l :: rest) (sc :: scs) (fr :: frs))
@@ -1053,20 +1066,21 @@ theorem loops_sim {l rest sc scs fr frs} (hc : Chain (l :: rest) (sc :: scs) (fr
 theorem def_finish {st : St} {ls : LSt} {st1 : St} {ls1 : LSt} {st2 : St} {ls2 : LSt} {i1 l1} {sym : Symbol} {b : Binding}
     (h1 : Post st1 ls1 st2 ls2 i1 l1)
     (hR1 : R st1 ls1) (hsc : st1.scopes = st.scopes) (hfid : fidsOf ls1.env = fidsOf ls.env)
-    (hfr : freesOf st1.tab = freesOf st.tab) (hden : den (fidsOf ls.env) (freesOf st.tab) sym = some b) :
+    (hfr : freesOf st1.tab = freesOf st.tab) (hden : den (fidsOf ls.env) (freesOf st.tab) sym = some b)
+    (htl : ls1.env.tail = ls.env.tail) :
     Post st ls st2 ls2 (i1 ++ [.defn sym]) (l1 ++ [.defn b]) := by
-  have h0 : Post st ls st1 ls1 [] [] := ⟨hR1, hsc, hfid, by rw [hfr]; exact Ext.refl _, .nil⟩
+  have h0 : Post st ls st1 ls1 [] [] := ⟨hR1, hsc, hfid, by rw [hfr]; exact Ext.refl _, .nil, htl⟩
   have hd : den (fidsOf ls2.env) (freesOf st2.tab) sym = some b := by
     rw [h1.fids, hfid]
     exact den_mono (by rw [← hfr]; exact h1.ext) hden
-  have h2 : Post st2 ls2 st2 ls2 [.defn sym] [.defn b] := ⟨h1.r, rfl, rfl, Ext.refl _, .defn hd .nil⟩
+  have h2 : Post st2 ls2 st2 ls2 [.defn sym] [.defn b] := ⟨h1.r, rfl, rfl, Ext.refl _, .defn hd .nil, rfl⟩
   simpa using (h0.seq h1).seq h2
 
 theorem loop_finish {st : St} {ls : LSt} {st1 : St} {ls1 : LSt} {st2 : St} {ls2 : LSt} {i l} {sc : Resolver.Scope} {scs}
     {label : Option String}
     (h2 : Post st1 ls1 st2 ls2 i l) (hs : st.scopes = sc :: scs)
     (hs1 : st1.scopes = { sc with loops := label :: sc.loops } :: scs) (ht : st1.tab = st.tab)
-    (hf : fidsOf ls1.env = fidsOf ls.env) :
+    (hf : fidsOf ls1.env = fidsOf ls.env) (htl : ls1.env.tail = ls.env.tail) :
     Post st ls (st2.updScope fun s => { s with loops := s.loops.tail })
       (ls2.upd fun fr => { fr with loops := fr.loops.tail }) i l := by
   obtain ⟨tab2, scopes2, nconsts2, hasEnd2⟩ := st2
@@ -1077,7 +1091,10 @@ theorem loop_finish {st : St} {ls : LSt} {st1 : St} {ls1 : LSt} {st2 : St} {ls2 
   cases hc2 with
   | @cons l2 rest2 _ _ fr2 frs2 hl2 hrest2 =>
   have hl := loops_sim (.cons hl2 hrest2) List.tail
-  refine ⟨⟨?_, h2.r.hasEnd, by simp [St.updScope]⟩, ?_, ?_, ?_, ?_⟩
+  refine ⟨⟨?_, h2.r.hasEnd, by simp [St.updScope]⟩, ?_, ?_, ?_, ?_, ?_⟩
+  rotate_right
+  · have := h2.tail; rw [htl] at this
+    simpa [LSt.upd, updFrame] using this
   · simpa [St.updScope, LSt.upd, updFrame] using hl
   · simp [St.updScope, hs]
   · have := h2.fids; rw [hf] at this
@@ -1102,7 +1119,7 @@ theorem filter_finish {st : St} {ls : LSt} {st1 : St} {ls1 : LSt} {st3 : St} {ls
     (isEnd : Bool) (h : Post st1 ls1 st3 ls3 items litems)
     (hR : R st ls) (hsc : st1.scopes = { isFilter := true } :: st.scopes)
     (hfree0 : freesOf st1.tab = [] :: freesOf st.tab) (hfids : fidsOf ls1.env = fid :: fidsOf ls.env)
-    (hempty : (Table.free st3.tab).isEmpty = true) :
+    (htl : ls1.env.tail = ls.env) (hempty : (Table.free st3.tab).isEmpty = true) :
     Post st ls { st3.leave with hasEnd := st3.leave.hasEnd || isEnd }
       { ({ ls3 with env := ls3.env.tail } : LSt) with hasEnd := ls3.hasEnd || isEnd }
       [.filter isEnd items] [.filter fid isEnd litems] := by
@@ -1130,7 +1147,8 @@ theorem filter_finish {st : St} {ls : LSt} {st1 : St} {ls1 : LSt} {st3 : St} {ls
     have : l3.free.isEmpty = true := hempty
     exact List.isEmpty_iff.mp this
   have hend : hasEnd3 = lhasEnd3 := h.r.hasEnd
-  refine ⟨⟨hrest3, by simp [St.leave, hend], hne⟩, rfl, hf.2, hext.2, ?_⟩
+  have htail : frs3 = ls.env := by have := h.tail; rw [htl] at this; exact this
+  refine ⟨⟨hrest3, by simp [St.leave, hend], hne⟩, rfl, hf.2, hext.2, ?_, by show frs3.tail = ls.env.tail; rw [htail]⟩
   refine .filter ?_ .nil
   have := h.rel
   simp only [fidsOf, freesOf, List.map_cons] at this
@@ -1141,7 +1159,7 @@ theorem filter_tail {st : St} {ls : LSt} {st1 : St} {ls1 : LSt} {st3 : St} {ls3 
     (isEnd : Bool) (fl : Nat) (h : Post st1 ls1 st3 ls3 items litems)
     (hR : R st ls) (hsc : st1.scopes = { isFilter := true } :: st.scopes)
     (hfree0 : freesOf st1.tab = [] :: freesOf st.tab) (hfids : fidsOf ls1.env = fid :: fidsOf ls.env)
-    (hempty : (Table.free st3.tab).isEmpty = true) :
+    (htl : ls1.env.tail = ls.env) (hempty : (Table.free st3.tab).isEmpty = true) :
     Corr (Post st ls)
       (if (isEnd && st3.leave.hasEnd) = true then Except.error (Err.other fl)
        else pure ({ st3.leave with hasEnd := st3.leave.hasEnd || isEnd }, [Item.filter isEnd items]))
@@ -1153,7 +1171,7 @@ theorem filter_tail {st : St} {ls : LSt} {st1 : St} {ls1 : LSt} {st3 : St} {ls3 
   by_cases hdup : (isEnd && ls3.hasEnd) = true
   · simp only [hdup, if_true]; exact Corr.err _
   · simp only [hdup, Bool.false_eq_true, if_false]
-    have := filter_finish isEnd h hR hsc hfree0 hfids hempty
+    have := filter_finish isEnd h hR hsc hfree0 hfids htl hempty
     rw [hend] at this
     exact this
 
@@ -1177,7 +1195,7 @@ theorem stmt_ok {fuel} (ih : Good fuel) (st : St) (ls : LSt) (s : Stmt) (hR : R 
     dsimp only at hdef ⊢
     obtain ⟨hc1, hfr1, hfid1, hden⟩ := hdef
     refine Corr.bind (ih.e _ _ e ⟨hc1, hR.hasEnd, by simp⟩ hB.weaken) fun st2 i1 ls2 l1 h1 => ?_
-    exact def_finish h1 ⟨hc1, hR.hasEnd, by simp⟩ rfl hfid1 hfr1 hden
+    exact def_finish h1 ⟨hc1, hR.hasEnd, by simp⟩ rfl hfid1 hfr1 hden rfl
   | fnS _ _ name params body =>
     simp only [walkStmt, lexStmt, St.depth, List.headD]
     have hdef := define_sim hcc name
@@ -1185,7 +1203,7 @@ theorem stmt_ok {fuel} (ih : Good fuel) (st : St) (ls : LSt) (s : Stmt) (hR : R 
     dsimp only at hdef ⊢
     obtain ⟨hc1, hfr1, hfid1, hden⟩ := hdef
     refine Corr.bind (ih.fn _ _ name params body ⟨hc1, hR.hasEnd, by simp⟩ hB.weaken) fun st2 i1 ls2 l1 h1 => ?_
-    exact def_finish h1 ⟨hc1, hR.hasEnd, by simp⟩ rfl hfid1 hfr1 hden
+    exact def_finish h1 ⟨hc1, hR.hasEnd, by simp⟩ rfl hfid1 hfr1 hden rfl
   | ret l e =>
     simp only [walkStmt, lexStmt, curFrame, List.headD]
     have hlen : (sc :: scs).length = (fr :: frs).length := (chain_length hcc).1
@@ -1219,7 +1237,7 @@ theorem stmt_ok {fuel} (ih : Good fuel) (st : St) (ls : LSt) (s : Stmt) (hR : R 
       · subst hs; exact hB.weaken.2 sc (by simp)
       · exact hB.weaken.2 s (by simp [hs])
     refine Corr.bind (ih.block _ _ b hR1 hB1) fun st2 i2 ls2 l2 h2 => ?_
-    exact loop_finish h2 rfl rfl rfl rfl
+    exact loop_finish h2 rfl rfl rfl rfl rfl
   | whileS _ label c b =>
     simp only [walkStmt, lexStmt]
     have hR1 : R ⟨l :: rest, { sc with loops := label :: sc.loops } :: scs, nconsts, hasEnd⟩
@@ -1234,7 +1252,7 @@ theorem stmt_ok {fuel} (ih : Good fuel) (st : St) (ls : LSt) (s : Stmt) (hR : R 
       · exact hB.weaken.2 s (by simp [hs])
     refine Corr.bind (ih.e _ _ c hR1 hB1) fun st1 i1 ls1 l1 h1 => ?_
     refine Corr.bind (ih.block _ _ b h1.r (hB1.of_scopes h1.scopes)) fun st2 i2 ls2 l2 h2 => ?_
-    exact loop_finish (h1.seq h2) rfl rfl rfl rfl
+    exact loop_finish (h1.seq h2) rfl rfl rfl rfl rfl
   | filter fl pat action =>
     simp only [walkStmt, lexStmt]
     have hc0 := enter_sim hcc nextFid true
@@ -1281,13 +1299,13 @@ theorem stmt_ok {fuel} (ih : Good fuel) (st : St) (ls : LSt) (s : Stmt) (hR : R 
         exact Corr.unc_right rfl
       · simp only [huse, Bool.false_eq_true, if_false]
         have h23 := h2.seq h3
-        cases pat <;> exact filter_tail _ fl h23 hR rfl rfl rfl hfree
+        cases pat <;> exact filter_tail _ fl h23 hR rfl rfl rfl rfl hfree
     · simp only [hfree, Bool.not_false, if_true]
       exact Corr.unc_left rfl
 
 
 theorem Post.addConst {st ls} (h : R st ls) : Post st ls st.addConst ls [] [] :=
-  ⟨⟨h.chain, h.hasEnd, h.ne⟩, rfl, rfl, Ext.refl _, .nil⟩
+  ⟨⟨h.chain, h.hasEnd, h.ne⟩, rfl, rfl, Ext.refl _, .nil, rfl⟩
 
 theorem Bnd.tail {st fuel} (h : Bnd st fuel) : ∀ sc ∈ st.scopes.tail, sc.depth ≤ maxDepth := by
   intro sc hs
@@ -1624,6 +1642,83 @@ theorem free_is_captured (fid : Nat) (fids : List Nat) (frees : List Symbol) (fr
     den (fid :: fids) (frees :: frs) s = den fids frs s' := by
   simp [den, hs, hi]
 
+
+/-- the captured symbols at the end of a function literal, read in the environment in which the
+literal is written -/
+theorem fn_caps {st : St} {ls : LSt} {st3 : St} {ls1 : LSt} {st4 : St} {ls2 : LSt} {items litems}
+    (hsc : st3.scopes = {} :: st.scopes) (htl : ls1.env.tail = ls.env)
+    (h : Post st3 ls1 st4 ls2 items litems) :
+    ∀ s ∈ Table.free st4.tab, ∃ b, den (fidsOf ls.env) (freesOf st4.leave.tab) s = some b ∧
+      lookup s.name ls.env = some b ∧ b.owner?.isSome = true := by
+  obtain ⟨tab4, scopes4, nconsts4, hasEnd4⟩ := st4
+  obtain ⟨env2, nextFid2, lhasEnd2⟩ := ls2
+  have hs4 : scopes4 = {} :: st.scopes := h.scopes.trans hsc
+  subst hs4
+  have hc4 := h.r.chain
+  cases hc4 with
+  | @cons l4 rest4 _ _ fr4 frs4 hl4 hrest4 =>
+  have htail : frs4 = ls.env := by have := h.tail; rw [htl] at this; exact this
+  intro s hs
+  obtain ⟨i, hi⟩ := mem_getElem? (show s ∈ l4.free from hs)
+  obtain ⟨b, h1, h2, h3⟩ := hl4.hfree i s hi
+  rw [htail] at h1 h2
+  exact ⟨b, h1, h2, h3⟩
+
+/-- **`closure_captures_visible`** — the compile-time half of "a closure captures, at the moment it
+is created, the current values of the visible locals and parameters of the functions enclosing
+it": in any state of the walk (`R`: the table mirrors the lexical environment), when the
+compiler has compiled a function literal, every symbol it loads before `Closure` (in the function
+in which the literal is written) denotes the binding that is lexically VISIBLE under that name at
+the point where the literal is written (`Lex.lookup` in the environment of the literal), and that
+binding is a local, a parameter or the own name of a function around the literal.  Together with
+`resolve_agrees` (`Rel.use` for a `free i` symbol: the use denotes what the i-th of these operands
+denotes) the captured variable a use reads is the lexically visible one. -/
+theorem closure_captures_visible {fuel : Nat} {st : St} {ls : LSt} {name : String} {params : List String} {body : Block}
+    {st' : St} {ls' : LSt} {c : Nat} {frees : List Symbol} {items : List Item} {litems : List LItem}
+    (hR : R st ls) (hB : Bnd st (fuel + 1))
+    (hw : walkFn (fuel + 1) st name params body = .ok (st', [.closure c frees items]))
+    (hl : lexFn (fuel + 1) ls name params body = .ok (ls', litems)) :
+    ∀ s ∈ frees, ∃ b, den (fidsOf ls.env) (freesOf st'.tab) s = some b ∧ lookup s.name ls.env = some b ∧
+      b.owner?.isSome = true := by
+  let P' : St → LSt → List Item → List LItem → Prop := fun st' _ is _ =>
+    ∀ c frees items, is = [Item.closure c frees items] →
+      ∀ s ∈ frees, ∃ b, den (fidsOf ls.env) (freesOf st'.tab) s = some b ∧ lookup s.name ls.env = some b ∧
+        b.owner?.isSome = true
+  have key : Corr P' (walkFn (fuel + 1) st name params body) (lexFn (fuel + 1) ls name params body) := by
+    have ih := good fuel
+    simp only [walkFn, lexFn]
+    have hB0 : ∀ sc ∈ ({} : Resolver.Scope) :: st.scopes, sc.depth + fuel ≤ maxDepth := by
+      intro sc hs
+      simp only [List.mem_cons] at hs
+      rcases hs with hs | hs
+      · subst hs; have := hB.weaken.1; simpa using this
+      · exact hB.weaken.2 sc hs
+    by_cases hn : (name == "") = true
+    · simp only [hn, if_true]
+      have hc0 := enter_sim hR.chain ls.nextFid false
+      have hp := defineParams_sim params (st.enter false) _ hc0 (by simp [St.enter, Table.enclosed])
+        (by intro sc h; simp [St.enter] at h; subst h; rfl)
+      obtain ⟨h1, h2, h3, h4, h5, h6⟩ := hp
+      refine Corr.bind (ih.block _ _ body ⟨h1, h5.trans hR.hasEnd, h6⟩ ⟨hB.weaken.1, by rw [h2]; exact hB0⟩)
+        fun st4 items ls2 litems h => ?_
+      intro c' frees' items' heq
+      simp only [pure, Except.pure, List.cons.injEq, Item.closure.injEq, and_true] at heq
+      rw [← heq.2.1]
+      exact fn_caps h2 (defineParams_tail _ _ _) h
+    · simp only [hn, Bool.false_eq_true, if_false]
+      have hc0 := fnname_sim hR.chain ls.nextFid name
+      have hp := defineParams_sim params { st.enter false with tab := defineFunctionName (st.enter false).tab name } _ hc0
+        (by simp [St.enter, Table.enclosed, defineFunctionName, updCur])
+        (by intro sc h; simp [St.enter] at h; subst h; rfl)
+      obtain ⟨h1, h2, h3, h4, h5, h6⟩ := hp
+      refine Corr.bind (ih.block _ _ body ⟨h1, h5.trans hR.hasEnd, h6⟩ ⟨hB.weaken.1, by rw [h2]; exact hB0⟩)
+        fun st4 items ls2 litems h => ?_
+      intro c' frees' items' heq
+      simp only [pure, Except.pure, List.cons.injEq, Item.closure.injEq, and_true] at heq
+      rw [← heq.2.1]
+      exact fn_caps h2 (defineParams_tail _ _ _) h
+  rw [hw, hl] at key
+  exact key c frees items rfl
 
 /-! ## non-vacuity -/
 
